@@ -36,24 +36,27 @@ def indent_of(line):
     return len(line) - len(line.lstrip(" "))
 
 
-def is_heading(line, indent):
+ENTRY_ONLY = KNOWN - {"note", "warning"}
+
+
+def is_heading(line, indent, known=KNOWN):
     if LINE_ID.search(line):
         return None
     m = HEAD.match(line)
     if not m or len(m.group(1)) != indent:
         return None
-    if m.group(2) not in KNOWN:
+    if m.group(2) not in known:
         return None
     return m
 
 
-def parse_block(lines, start, end, indent, base_lineno=0):
+def parse_block(lines, start, end, indent, known=KNOWN):
     """Parse lines[start:end] as the content of a container whose directives sit at `indent`."""
     nodes, content = [], []
     i = start
     while i < end:
         line = lines[i]
-        m = is_heading(line, indent)
+        m = is_heading(line, indent, known)
         if m:
             node = Node(m.group(2), m.group(3), indent, i)
             j = i + 1
@@ -64,7 +67,7 @@ def parse_block(lines, start, end, indent, base_lineno=0):
                 else:
                     break
             node.lines = lines[i + 1:j]
-            node.children, node.content = parse_block(lines, i + 1, j, indent + 3)
+            node.children, node.content = parse_block(lines, i + 1, j, indent + 3, known)
             nodes.append(node)
             i = j
         else:
@@ -74,10 +77,10 @@ def parse_block(lines, start, end, indent, base_lineno=0):
 
 
 class Page:
-    def __init__(self, text):
+    def __init__(self, text, known=KNOWN):
         self.text = text
         self.lines = text.split("\n")
-        self.top, self.top_content = parse_block(self.lines, 0, len(self.lines), 0)
+        self.top, self.top_content = parse_block(self.lines, 0, len(self.lines), 0, known)
 
     def title_block(self):
         """(blank, over, title, under) = the first four lines."""
